@@ -511,8 +511,22 @@ def success_protocol(chk, repo, ms, f):
         chk.ob('R06.3', f'failure branch at line {e_.lineno}: sets a message and raises under raise_on_fail', has_msg and has_raise, f'message={has_msg}, raise_on_fail raise={has_raise}', ms.where(e_),
                key=f'R06.3|failure|{ast.unparse(blk.test)[:40] if blk is not None else e_.lineno}', method='AST')
     # solution allocated before the try, its accessors NaN-initialised: full_solution_ptr filled with NAN in __init__
-    fills = [n for n in ast.walk(init) if isinstance(n, ast.Assign) and 'NAN' in ast.unparse(n.value) and isinstance(n.targets[0], ast.Subscript)] if init else []
-    chk.ob('R06.3', 'solution and Love-number buffers are NaN-filled at construction (a failed solve exposes no stale numbers)', len(fills) >= 2, f'{len(fills)} NaN fills', ms.where(init) if init else ms.rel(), method='AST')
+    # (the fills may sit in the constructor or in helpers it calls: every call of the constructor that reaches a function of this module is followed, and one fill inside a
+    #  helper counts once per call of that helper)
+    def nan_fills(fn_, depth=0, seen=None):
+        seen = set() if seen is None else seen
+        n_ = len([x for x in ast.walk(fn_) if isinstance(x, ast.Assign) and 'NAN' in ast.unparse(x.value).upper() and isinstance(x.targets[0], ast.Subscript)])
+        if depth >= 3: return n_
+        for c_ in [x for x in ast.walk(fn_) if isinstance(x, ast.Call)]:
+            nm_ = c_.func.id if isinstance(c_.func, ast.Name) else (c_.func.attr if isinstance(c_.func, ast.Attribute) else None)
+            tgt = ms.defs.get(nm_) if nm_ else None
+            if tgt is None and nm_:
+                tgt = methods(cls).get(nm_)
+            if isinstance(tgt, ast.FunctionDef) and tgt is not fn_:
+                n_ += nan_fills(tgt, depth + 1, seen)
+        return n_
+    nfills = nan_fills(init) if init else 0
+    chk.ob('R06.3', 'solution and Love-number buffers are NaN-filled at construction (a failed solve exposes no stale numbers)', nfills >= 2, f'{nfills} NaN fills', ms.where(init) if init else ms.rel(), method='AST, helpers of the constructor followed')
 
 
 # ------------------------------------------------------------------------------------------------ R06.4
